@@ -96,6 +96,10 @@ def one_case(ctx, lmplz, dexe, case, wd, flags, tag="c", spec_mode=False):
         if sp["cls"] != "ok":
             out.append(("corr", "spec-class", "Lean spec %s on an accepted corpus" % sp["cls"]))
         else:
+            ctx.hist("tablewf", sp.get("tablewf"))
+            if sp.get("tablewf") is False and case["order"] >= 1:
+                out.append(("corr", "tablewf", "the hypotheses Spec.TableWF of the normalisation theorem (C06) fail on the count "
+                            "table of an accepted corpus"))
             ok_d = not L.compare_discounts(tstats, sp["discs"])
             if ok_d:
                 mp, _ = L.compare_model(tg, case["order"], sp["grams"], "Lean spec")
